@@ -7,6 +7,7 @@ import (
 	"io"
 	"math/rand"
 	"net"
+	"os"
 	"sort"
 	"strings"
 	"time"
@@ -44,6 +45,15 @@ type addrConn struct {
 }
 
 func (c addrConn) RemoteAddr() net.Addr { return c.remote }
+
+// Write drops zero-length writes (empty message payloads): on a net.Pipe they would
+// block until the other side issues a Read, which a wire reader never does for them.
+func (c addrConn) Write(b []byte) (int, error) {
+	if len(b) == 0 {
+		return 0, nil
+	}
+	return c.Conn.Write(b)
+}
 
 func remoteVersion(nonce uint64) *wire.MsgVersion {
 	me := wire.NewNetAddressIPPort(net.ParseIP("0.0.0.0"), 0, 0)
@@ -176,10 +186,10 @@ func (c *bookCase) violate(sig, what string) {
 	if len(tr) > 400 {
 		tr = append([]string{fmt.Sprintf("… %d earlier events omitted (replay the case id for all) …", len(tr)-400)}, tr[len(tr)-400:]...)
 	}
-	c.r.Violate(sig, what, c.id, map[string]any{
+	c.r.Violate(sig, what, c.id, generic(map[string]any{
 		"flavour": c.flavour, "ban_duration": map[bool]string{true: "1h", false: "1ms"}[c.longBan],
 		"events": tr, "limits": map[string]int{"MaxPeers": config.MaxPeers, "MaxPeersPerIP": config.MaxPeersPerIP},
-	})
+	}))
 	c.stop = true
 }
 
@@ -191,7 +201,7 @@ func (c *bookCase) newPeer(host int, kind string) *bookPeer {
 	remote := &net.TCPAddr{IP: net.ParseIP(h.ip), Port: 20000 + c.port%40000}
 	sut, far := net.Pipe()
 	hs := make(chan error, 1)
-	go remoteSide(far, kind == kInbound, c.nonce<<20|uint64(c.port), hs)
+	go remoteSide(addrConn{Conn: far, remote: remote}, kind == kInbound, c.nonce<<20|uint64(c.port), hs)
 	vp := c.book.NewPeer(kind == kInbound, kind == kPersistent, remote.String(), addrConn{Conn: sut, remote: remote})
 	if vp == nil {
 		_ = sut.Close()
@@ -208,6 +218,7 @@ func (c *bookCase) newPeer(host int, kind string) *bookPeer {
 		}
 	case <-time.After(20 * time.Second):
 		c.r.Inconclusive(c.id, "handshake watchdog (20s)")
+		dbg("handshake watchdog kind=%s trace=%v", kind, c.trace)
 		c.stop = true
 		return nil
 	}
@@ -409,7 +420,7 @@ type flavourSpec struct {
 }
 
 var bookFlavours = []flavourSpec{
-	{name: "mixed-ban1h", hosts: 6, add: 55, done: 35, ban: 10, in: 45, out: 40, pers: 15, minLen: 50, maxLenQ: 2000, longBan: true, maxBans: 1 << 30, doneRefusedAtOnce: 50},
+	{name: "mixed-ban1h", hosts: 6, add: 57, done: 38, ban: 5, in: 45, out: 40, pers: 15, minLen: 50, maxLenQ: 2000, longBan: true, maxBans: 3, doneRefusedAtOnce: 50},
 	{name: "mixed-ban1ms", hosts: 6, add: 55, done: 37, ban: 8, in: 45, out: 40, pers: 15, minLen: 50, maxLenQ: 2000, longBan: false, maxBans: 8, doneRefusedAtOnce: 50},
 	{name: "host-pressure", hosts: 2, add: 60, done: 36, ban: 4, in: 50, out: 45, pers: 5, minLen: 50, maxLenQ: 600, longBan: false, maxBans: 4, doneRefusedAtOnce: 70},
 	{name: "fill-total-ban1h", hosts: 6, add: 78, done: 20, ban: 2, in: 10, out: 10, pers: 80, minLen: 300, maxLenQ: 2000, longBan: true, maxBans: 2, doneRefusedAtOnce: 80},
@@ -429,6 +440,12 @@ func seqLen(rng *rand.Rand, f flavourSpec) int {
 }
 
 var nopLog = zerolog.Nop()
+
+func dbg(f string, a ...any) {
+	if os.Getenv("C18_DEBUG") != "" {
+		fmt.Fprintf(os.Stderr, "c18: "+f+"\n", a...)
+	}
+}
 
 func runBookCase(r *ev.Run, id string, idx int) {
 	rng := r.Rand(id)
